@@ -611,6 +611,11 @@ func (vfs *MemFS) OpenFile(name string, flag int, perm fs.FileMode) (avfs.File, 
 		}
 
 		if om&avfs.OpenTruncate != 0 {
+			// Truncating needs write permission, whatever the access mode (O_RDONLY|O_TRUNC).
+			if !c.checkPermission(avfs.OpenWrite, vfs.User()) {
+				return (*MemFile)(nil), &fs.PathError{Op: op, Path: name, Err: vfs.err.PermDenied}
+			}
+
 			c.truncate(0)
 		}
 
